@@ -297,6 +297,7 @@ class Unit:
                     "no_ptr_rule": bool(o.get("noptr")),
                     "iter_inline": parse_subst(o.get("iterinline")),
                     "macro_rules": o.get("macro"), "macro_arg": o.get("macroarg"),
+                    "ret_type": o.get("rettype"),
                     "manual": d.manual,
                 })
         return {"items": items}
